@@ -201,6 +201,16 @@ func (r *Run) Violation(sig string, detail interface{}) { r.ViolationK(sig, deta
 
 // ViolationK is Violation that also reports whether the signature matched a listed known finding.
 func (r *Run) ViolationK(sig string, detail interface{}) (known bool) {
+	// Redis layers (signatures start with "redis "): Acra builds its go-redis clients with the default options, whose read timeout is
+	// 3 s of WALL clock; on a saturated machine a healthy stand-in server can miss it. Such a client-side timeout is a resource
+	// verdict (inconclusive), never evidence against the property.
+	if strings.HasPrefix(sig, "redis ") {
+		b, _ := json.Marshal(detail)
+		if strings.Contains(sig, "i/o timeout") || strings.Contains(string(b), "i/o timeout") {
+			r.Inconclusive("go-redis client-side i/o timeout (wall clock): " + sig)
+			return false
+		}
+	}
 	r.mu.Lock()
 	defer r.mu.Unlock()
 	for i, re := range r.knownRe {
